@@ -30,6 +30,7 @@ type Case struct {
 	A       int    `json:"a"`
 	Bf      int    `json:"bf"`
 	Partial int    `json:"partial,omitempty"`
+	Fix     int    `json:"fix,omitempty"` // fixture construction order, see kit.RootWindow
 	Ops     []Op   `json:"ops"`
 }
 
@@ -71,7 +72,7 @@ func init() {
 
 // valid reports whether the case is inside the property's domain.
 func (c *Case) valid() bool {
-	if c.C < 1 || c.Kr < 0 || c.A < 0 || c.A > c.Bf || c.Bf > c.Kr || c.Partial < 0 {
+	if c.C < 1 || c.Kr < 0 || c.A < 0 || c.A > c.Bf || c.Bf > c.Kr || c.Partial < 0 || c.Fix < 0 || c.Fix > 2 {
 		return false
 	}
 	if c.Partial > 0 && (c.Partial >= c.C || c.Bf >= c.Kr) {
@@ -119,10 +120,12 @@ func Check(c *Case) kit.Result {
 
 func run[S, B signal.SignalTypes](c *Case) (res kit.Result) {
 	C := c.C
-	root := kit.Root[B](C, c.Kr)
+	root, w := kit.RootWindow[B](C, c.Kr, c.A, c.Bf, c.Partial, c.Fix)
 	model := kit.RootModel[B](C, c.Kr)
 	rootHdr := kit.HdrOf(root)
-	w := kit.Window(root, c.A, c.Bf, c.Partial)
+	if c.Fix != 0 {
+		res.Class("headerNeverWrittenThrough")
+	}
 	kit.ApplyPartial(model, C, c.Bf, c.Partial)
 	off := C * c.A
 	n := C*(c.Bf-c.A) + c.Partial
@@ -350,7 +353,7 @@ func FP(c *Case) uint64 {
 	h := kit.NewHasher()
 	h.Str(c.S)
 	h.Str(c.B)
-	h.Ints([]int{c.C, c.Kr, c.A, c.Bf, c.Partial, len(c.Ops)})
+	h.Ints([]int{c.C, c.Kr, c.A, c.Bf, c.Partial, c.Fix, len(c.Ops)})
 	for _, op := range c.Ops {
 		h.Str(op.Kind)
 		h.Int(op.N)
@@ -372,6 +375,7 @@ func Gen(t *rapid.T) *Case {
 	if c.Bf < c.Kr && c.C >= 2 && rapid.IntRange(0, 2).Draw(t, "partialSel") == 0 {
 		c.Partial = rapid.IntRange(1, c.C-1).Draw(t, "partial")
 	}
+	c.Fix = rapid.IntRange(0, 2).Draw(t, "fix")
 	n := c.C*(c.Bf-c.A) + c.Partial
 	frames := c.Bf - c.A
 	nops := rapid.IntRange(1, 3).Draw(t, "nops")
